@@ -344,6 +344,10 @@ def run(chk, tier, proof_ok):
         units, results = units + more, results + alias.run_units(more, procs)
         findings = collect(results)
     summarise(chk, units, results)
+    import realsearch
+    tdf, nsnap = realsearch.td_snapshot_findings(chk.seed * 37 + 1, 8 if tier == 'quick' else 60)
+    chk.coverage['transdimensional_snapshots'] = nsnap
+    findings = list(findings) + tdf
     for key, text, payload in findings:
         chk.violation(key, text, payload, True)
     broken = []
